@@ -24,6 +24,9 @@ import r_decodelen
 import r_powers
 import r_outcover
 import r_residue
+import r_tape
+import r_tensor
+import r_slots
 import r_slotmod
 import r_modeflag
 import r_sendrecv
@@ -377,6 +380,7 @@ def c02(facts, tier):
     # multiply_many: the pairwise product tree stays in bounds for odd operand counts and keeps its products
     n = r_contra.run_pairwise(facts, rep, None if tier == "thorough" else {"src/evaluator.rs"})
     rep.floor("R-CONTRA(pairs)", "pairwise-consuming loops", n, 1)
+    r_tensor.run(facts, rep, fnames=("ckks_multiply", "bgv_multiply"), floor=2)
     return rep
 
 
@@ -458,6 +462,7 @@ def c03(facts, tier):
     # scheme-independent back ends the CKKS operations share with BFV/BGV (cross-listed from C02)
     r_slotmod.run(facts, rep, ev, floor_sites=6, floor_pairs=10)
     r_modeflag.run(facts, rep, ev, floor=2)
+    r_tensor.run(facts, rep, fnames=("ckks_multiply",), floor=1)
     return rep
 
 
@@ -514,7 +519,7 @@ def c12(facts, tier):
     n = r_contra.run_absmod(facts, rep, {"src/ckks_encoder.rs"})
     rep.floor("R-CONTRA(absmod)", "reduced magnitudes of signed locals", n, 1)
     r_encadmit.run(facts, rep, floor=4)
-    r_outcover.run(facts, rep, floor=2)
+    r_outcover.run(facts, rep, floor=2, **({"files": tuple({facts.items[p]["file"] for p in facts.hir})} if tier == "thorough" else {}))
     return rep
 
 
@@ -614,6 +619,8 @@ def c09(facts, tier):
         else:
             rep.violation(R, "scan", "try_minimal_primitive_root no longer scans (degree+1)/2 successive odd powers keeping the "
                           "minimum: the result depends on the random start", facts.loc(tm))
+    # the candidate root (and everything else handed to the modular primitives of the root search) is a residue
+    r_residue.run(facts, rep, floor=2, files={"src/util/number_theory.rs", "src/util/ntt.rs"})
     return rep
 
 
@@ -699,6 +706,7 @@ def c20(facts, tier):
     n = r_encbound.run_inverse(facts, rep, strict)
     rep.floor("R-INDEXPAIR(inv)", "encode_outputs/decode pairs", n, 4)
     r_convidx.run(facts, rep, floor=2)
+    r_convidx.run_tiles(facts, rep)
     r_decodelen.run(facts, rep, floor=3)
     return rep
 
@@ -740,6 +748,7 @@ def c18(facts, tier):
             and facts.items[p].get("impl_self")]
     repstate(facts, rep, ents, 150)
     r_sendrecv.run(facts, rep, floor=8)
+    r_tape.run(facts, rep, floor=4)
     return rep
 
 
@@ -760,6 +769,7 @@ def c14(facts, tier):
     repstate(facts, rep, writers, 110)
     n = r_wire.run_use(facts, rep)
     rep.floor("R-WIRE(use)", "readers with let-bound reads", n, 8)
+    r_slots.run(facts, rep, floor=1)
     return rep
 
 
